@@ -36,7 +36,8 @@ impl DecSpace {
 
 /// Enumerate decode histories. `f(case, new_group)`: new_group is true when (enc, stream, bom, sink, repl) changed.
 pub fn enum_dec(ctx: &Ctx, ev: &mut Ev, sp: &DecSpace, mut f: impl FnMut(&DecCase, bool, &mut Ev)) {
-    let mut ctr: u64 = ctx.rng(77).next() % sp.stride.max(1);
+    let stride = sp.stride.max(1) * ctx.stride_mult();
+    let mut ctr: u64 = ctx.rng(77).next() % stride;
     let no_prefix = vec![vec![]];
     for &enc in sp.encs.iter() {
         let alpha = if sp.small_alpha { byte_alpha_small(enc) } else { byte_alpha(enc) };
@@ -55,9 +56,14 @@ pub fn enum_dec(ctx: &Ctx, ev: &mut Ev, sp: &DecSpace, mut f: impl FnMut(&DecCas
                     let min = dec_min_cap(sink);
                     for offs in sp.cap_offsets.iter() {
                         let caps: Vec<usize> = offs.iter().map(|o| min + o).collect();
-                        for &last_sep in sp.last_seps.iter() { for mask in 0..(1u32 << n.max(1)) { for &fill in sp.fills.iter() {
+                        // all cut sets for streams of <= 5 bytes; for longer (token-grammar) streams: no cut, every single cut,
+                        // every pair of cuts two apart, byte-per-call, each also with an empty first chunk
+                        let masks: Vec<u32> = if n <= 5 { (0..(1u32 << n.max(1))).collect() } else {
+                            let mut m = vec![0u32, 1]; for i in 1..n { m.push(1 << i); m.push((1 << i) | 1); if i + 2 < n { m.push((1 << i) | (1 << (i + 2))); } if i + 1 < n { m.push((1 << i) | (1 << (i + 1))); } }
+                            let all: u32 = (1u32 << n) - 2; m.push(all); m.push(all | 1); m };
+                        for &last_sep in sp.last_seps.iter() { for &mask in masks.iter() { for &fill in sp.fills.iter() {
                             ctr += 1;
-                            if sp.stride > 1 && ctr % sp.stride != 0 { continue; }
+                            if stride > 1 && ctr % stride != 0 { continue; }
                             let cuts = cuts_from_mask(mask, n);
                             let case = DecCase { enc, bom, sink, repl, stream: &stream, cuts: &cuts, last_sep, caps: &caps, fill, src_align: (ctr as usize) % 16, dst_align: ((ctr / 16) as usize) % 16, filler: (ctr as usize) % 16 };
                             f(&case, new_group, ev);
@@ -125,18 +131,22 @@ pub struct EncSpace {
     pub last_seps: Vec<bool>,
     pub stride: u64,
     pub fills: Vec<u8>,
+    /// extend the alphabet per encoder with mappable/unmappable representatives of the ideograph, kana and hangul arms
+    pub per_encoder: bool,
 }
 impl EncSpace {
     pub fn describe(&self) -> String {
         format!("{} encoders x texts of <= {} characters over a {}-scalar alphabet (+ lone surrogates for UTF-16 sources) x all cut sets x src16 {:?} x vec_sink {:?} x repl {:?} x capacities min+{:?} x last_sep {:?} x fills {:?}, stride {}",
-            self.encs.len(), self.maxlen, self.alpha.len(), self.src16s, self.vec_sinks, self.repls, self.cap_offsets, self.last_seps, self.fills, self.stride)
+            self.encs.len(), self.maxlen, self.alpha.len() + if self.per_encoder { 6 } else { 0 }, self.src16s, self.vec_sinks, self.repls, self.cap_offsets, self.last_seps, self.fills, self.stride)
     }
 }
 /// Enumerate encode histories. new_group is true when (enc, text, src16, repl) changed.
 pub fn enum_enc(ctx: &Ctx, ev: &mut Ev, sp: &EncSpace, mut f: impl FnMut(&EncCase, bool, &mut Ev)) {
-    let mut ctr: u64 = ctx.rng(78).next() % sp.stride.max(1);
-    let texts = strings_over(&sp.alpha, sp.maxlen);
+    let stride = sp.stride.max(1) * ctx.stride_mult();
+    let mut ctr: u64 = ctx.rng(78).next() % stride;
+    let shared = strings_over(&sp.alpha, sp.maxlen);
     for &enc in sp.encs.iter() {
+        let own; let texts = if sp.per_encoder { own = strings_over(&encoder_alpha_small(enc, &sp.alpha), sp.maxlen); &own } else { &shared };
         for text in texts.iter() {
             if !ev.mine() { continue; }
             let n = text.len();
@@ -148,9 +158,14 @@ pub fn enum_enc(ctx: &Ctx, ev: &mut Ev, sp: &EncSpace, mut f: impl FnMut(&EncCas
                 for &vec_sink in sp.vec_sinks.iter() { if vec_sink && src16 { continue; }
                     for offs in sp.cap_offsets.iter() {
                         let caps: Vec<usize> = offs.iter().map(|o| min + o).collect();
-                        for &last_sep in sp.last_seps.iter() { for mask in 0..(1u32 << n.max(1)) { for &fill in sp.fills.iter() {
+                        // all cut sets for streams of <= 5 bytes; for longer (token-grammar) streams: no cut, every single cut,
+                        // every pair of cuts two apart, byte-per-call, each also with an empty first chunk
+                        let masks: Vec<u32> = if n <= 5 { (0..(1u32 << n.max(1))).collect() } else {
+                            let mut m = vec![0u32, 1]; for i in 1..n { m.push(1 << i); m.push((1 << i) | 1); if i + 2 < n { m.push((1 << i) | (1 << (i + 2))); } if i + 1 < n { m.push((1 << i) | (1 << (i + 1))); } }
+                            let all: u32 = (1u32 << n) - 2; m.push(all); m.push(all | 1); m };
+                        for &last_sep in sp.last_seps.iter() { for &mask in masks.iter() { for &fill in sp.fills.iter() {
                             ctr += 1;
-                            if sp.stride > 1 && ctr % sp.stride != 0 { continue; }
+                            if stride > 1 && ctr % stride != 0 { continue; }
                             let cuts = cuts_from_mask(mask, n);
                             let case = EncCase { enc, src16, vec_sink, repl, atoms: text, cuts: &cuts, last_sep, caps: &caps, fill, src_align: (ctr as usize) % 16, dst_align: ((ctr / 16) as usize) % 16 };
                             f(&case, new_group, ev);
